@@ -9,7 +9,7 @@ def sessions(ctx):
         yield from sessbase.model_sessions(ctx, rep, 'MC_Session_list.cfg', 'list queries (matchers, caps, selection) over recorded histories',
                                            ctx.pick(1200, 12000))
         for k in range(ctx.pick(200, 2000)):
-            g = gen.SessionGen(ctx.seed * 67867967 + k, nconn=(1, 3), nmsg=(10, 40), junk=0.02, cmds=0.5, core=True,
+            g = gen.SessionGen(ctx.seed * 67867967 + k, nconn=(1, 3), nmsg=(10, 40), junk=0.02, cmds=0.5, core=True, unresolved=0.08,
                                matcher_depth=k % 3)
             yield g.session(), {'dialect': ctx.rnd.choice(['old', 'new'])}, 'random-list'
     return it
